@@ -455,6 +455,25 @@ def useRe (s : Str) : Bool :=
       | _ => false
     viaColons || (w > 0 && tailOk t)
 
+/-- `COMMON_RE.match(s)` = `^common(?:\s*/\s*(\w+)\s*/\s*|\s+)(\w+.*)` (IGNORECASE): a named
+    block `/name/` or at least one blank, then an identifier character -/
+def commonRe (s : Str) : Bool :=
+  match eatCI ['c', 'o', 'm', 'm', 'o', 'n'] s with
+  | none => false
+  | some r =>
+    let w := spanLen isSpace r
+    let t := r.drop w
+    let startsWord (u : Str) : Bool := match u with | c :: _ => isWord c | [] => false
+    let named : Bool := match t with
+      | '/' :: v =>
+        let v1 := dropSpaces v
+        let n := spanLen isWord v1
+        n > 0 && (match dropSpaces (v1.drop n) with
+                  | '/' :: x => startsWord (dropSpaces x)
+                  | _ => false)
+      | _ => false
+    named || (w > 0 && startsWord t)
+
 /-- what a branch of the cascade does, as far as recorded calls are concerned -/
 inductive Act
   | none            -- no branch taken / branch without effect on calls
@@ -483,6 +502,7 @@ def branchTakes (gs : Rx.Guards) (name guard : String) (line : Str) (bl : Int) :
     else if name == "ASSOCIATE_RE" then (associateRe line).isSome
     else if name == "VARIABLE_RE" then variableRe line
     else if name == "USE_RE" then useRe line
+    else if name == "COMMON_RE" then commonRe line
     else if name == "ARITH_GOTO_RE" then Rx.guardTest gs name line
     else if name == "CALL_RE|SUBCALL_RE" then callSearch line || (subcallChain line).isSome
     else false)
